@@ -21,6 +21,7 @@ func verifSeedDecoder(i int) (*PathDecoder, verifSeed) {
 		Files:            map[string]*hcl.File{vf: f},
 		Functions:        verifFunctions(),
 		ReferenceTargets: verifTargets(),
+		Validators:       verifValidators(),
 	}
 	d := NewDecoder(&verifPathReader{paths: map[string]*PathContext{"dir": pc}})
 	d.SetContext(NewDecoderContext())
